@@ -65,24 +65,37 @@ pub fn place_fault(rng: &mut Rng, traj: &[StepPoint]) -> (FaultKind, u64, AllocC
     if traj.is_empty() {
         return (FaultKind::None, 0, ac);
     }
-    let s = traj[rng.usize(traj.len())];
+    let i = rng.usize(traj.len());
+    let s = traj[i];
     let d = rng.below(3); // 0,1,2 -> -1,0,+1
+    // half of the faults strike at a step boundary (+-1), the other half somewhere INSIDE the
+    // operator that runs at that step: between this step's counters and the next step's
+    let next = traj.get(i + 1).copied();
+    let inside = rng.bool();
+    let within = |rng: &mut Rng, lo: u64, hi: Option<u64>| -> u64 {
+        match hi {
+            Some(h) if inside && h > lo + 1 => lo + 1 + rng.below(h - lo - 1),
+            _ => (lo + d).saturating_sub(1),
+        }
+    };
     match rng.below(10) {
         0..=2 => (FaultKind::None, 0, ac),
-        3..=4 => (FaultKind::Budget, s.cost.saturating_add(d).saturating_sub(1).max(1), ac),
+        3..=4 => (FaultKind::Budget, within(rng, s.cost, next.map(|n| n.cost)).max(1), ac),
         5..=7 => {
             let peak = traj.iter().map(|p| p.heap).max().unwrap_or(1);
-            let l = if rng.chance(1, 4) { peak.saturating_sub(1) } else { (s.heap + d).saturating_sub(1) };
+            let l = if rng.chance(1, 4) { peak.saturating_sub(1) } else { within(rng, s.heap, next.map(|n| n.heap)) };
             ac.heap_limit = Some(l.max(1));
             (FaultKind::Heap, 0, ac)
         }
         8 => {
-            // the cap is hit when the unlimited run would reach s.atoms (+-1)
-            ac.ghost_atoms = (MAX_ATOMS + d).saturating_sub(1).saturating_sub(s.atoms);
+            // the cap is hit when the unlimited run would reach s.atoms (+-1, or inside the step)
+            let at = within(rng, s.atoms, next.map(|n| n.atoms));
+            ac.ghost_atoms = MAX_ATOMS.saturating_sub(at);
             (FaultKind::Atoms, 0, ac)
         }
         _ => {
-            ac.ghost_pairs = (MAX_PAIRS + d).saturating_sub(1).saturating_sub(s.pairs);
+            let at = within(rng, s.pairs, next.map(|n| n.pairs));
+            ac.ghost_pairs = MAX_PAIRS.saturating_sub(at);
             (FaultKind::Pairs, 0, ac)
         }
     }
